@@ -52,7 +52,8 @@ class LLEWorld:
 
     def lle(self, a, comp, T, top):
         """set the composition (all in 'l'), run lle on the three streams, return the observation"""
-        obs = dict(exc=NONE, msg='', two=False, act=0, same=0, scale=0, top_ok=True, neg=False, method=self.method.replace(' ', '_'), n=len(comp))
+        obs = dict(exc=NONE, msg='', two=False, act=0, same=0, scale=0, top_ok=True, neg=False, method=self.method.replace(' ', '_'), n=len(comp),
+                   scale_tol=1000 if self.method == 'pseudo equilibrium' else 1000000)
         try:
             with warnings.catch_warnings():
                 warnings.simplefilter('ignore')
